@@ -75,6 +75,44 @@ theorem isValidC_circular (c : ClassSpec) (w : Word) : c.isValidC w true = c.isV
     simp only []
     by_cases hc : validCuts c.geom (m.group w 0) > 2 <;> simp [hc]
 
+/-- **automatic typing does not depend on the past either**: from any state the validations and
+characterisations made so far can have left (`Inv`), `characterize` over a family answers with the first
+candidate that accepts the record — the pure function `Moclo.characterize` of the typing model — and leaves a
+state that still satisfies the invariant -/
+theorem characterize_independent (spec : C → ClassSpec) (cands : List C) (w : Word) :
+    ∀ (st : CState C Pat) (i : Nat), Inv (fun c => (spec c).pat) st →
+      (charRun spec st cands w i).2 = (characterize (cands.map spec) w).map (· + i) ∧
+      Inv (fun c => (spec c).pat) (charRun spec st cands w i).1 := by
+  induction cands with
+  | nil => intro st i h; exact ⟨rfl, h⟩
+  | cons c cs ih =>
+    intro st i h
+    obtain ⟨hinv, hp⟩ := inv_query (fun c => (spec c).pat) st c h
+    unfold charRun
+    rw [hp]
+    have hsame : ({ (spec c) with pat := (spec c).pat } : ClassSpec) = spec c := rfl
+    rw [hsame, isValidC_circular]
+    unfold characterize
+    simp only [List.map_cons, List.findIdx?_cons]
+    by_cases hv : (spec c).isValid w = true
+    · simp only [hv, if_true]
+      exact ⟨by simp, hinv⟩
+    · simp only [hv, Bool.false_eq_true, if_false]
+      obtain ⟨h1, h2⟩ := ih _ (i + 1) hinv
+      refine ⟨?_, h2⟩
+      rw [h1]
+      unfold characterize
+      cases (cs.map spec).findIdx? (fun c => c.isValid w) with
+      | none => rfl
+      | some j => simp [Option.map]; omega
+
+/-- in particular after any history of validation calls, from a fresh interpreter -/
+theorem characterize_after_history (spec : C → ClassSpec) (hist : List C) (cands : List C) (w : Word) :
+    (charRun spec (cacheRun (fun c => (spec c).pat) [] hist) cands w 0).2 = characterize (cands.map spec) w := by
+  have := (characterize_independent spec cands w _ 0 (inv_run _ [] hist (inv_init _))).1
+  rw [this]
+  cases characterize (cands.map spec) w <;> simp
+
 /-- the statement is not vacuous: resolving the cache through the parents (the shape of the defect found
 on the pinned tree) breaks it on a two-class hierarchy — class 1 derives from class 0, priming the parent
 changes what the child is matched with -/
